@@ -1,7 +1,7 @@
 (* C08, Feldman-VSS-Qual at an honest non-dealer: consequences of the refinement for fairness. *)
 From Coq Require Import ZArith List Bool Arith Lia.
 From V Require Import Model.DkgVss Model.DkgQual Spec.DkgApiSpec Spec.DkgQualFacts
-  Proofs.DkgTactics Proofs.DkgC10Proofs Proofs.DkgQualRefine Proofs.DkgAgree.
+  Proofs.DkgTactics Proofs.DkgC10Proofs Proofs.DkgQualRefine Proofs.DkgAgree Proofs.DkgQualEvents.
 Import ListNotations.
 Open Scope Z_scope.
 
@@ -189,6 +189,97 @@ Proof.
   destruct (H2 (honest_dealer_clean (a0 :: al) (annot L) HL HT HU)) as (b0 & bl & Eb & Er).
   rewrite (hd_vecOk (a0 :: al) (annot L) HL) in Eb. inversion Eb; subst b0 bl.
   rewrite Er. destruct (a0 =? 0) eqn:E0; [apply Z.eqb_eq in E0; contradiction|reflexivity].
+Qed.
+
+(* ---------------- an honest dealer is never flagged ---------------- *)
+Lemma Phi_extends : forall L2 L1, Phi cf d (annot L1) = true -> Phi cf d (annot (L1 ++ L2)) = true.
+Proof.
+  induction L2 as [|x L2 IH]; intros L1 H; [rewrite app_nil_r; exact H|].
+  replace (L1 ++ x :: L2) with ((L1 ++ [x]) ++ L2) by (rewrite <- app_assoc; reflexivity).
+  apply IH. rewrite (annot_app). apply (Phi_mono cf d Hp Hd Hpd). exact H.
+Qed.
+
+Lemma ownc_extends : forall L2 L1, ownc cf d (annot L1) = true -> ownc cf d (annot (L1 ++ L2)) = true.
+Proof.
+  induction L2 as [|x L2 IH]; intros L1 H; [rewrite app_nil_r; exact H|].
+  replace (L1 ++ x :: L2) with ((L1 ++ [x]) ++ L2) by (rewrite <- app_assoc; reflexivity).
+  apply IH. rewrite (annot_app). apply (ownc_mono cf d Hp Hd Hpd). exact H.
+Qed.
+
+Lemma own_recv_abs A q : StateAbs cf d A q -> own_recv cf q = ownc cf d A.
+Proof.
+  intro S. unfold own_recv. rewrite (sa_compl _ _ _ _ S (c_my cf)). unfold complained. rewrite Nat.eqb_refl.
+  destruct (ownc cf d A), (ansF cf d A (c_my cf)); reflexivity.
+Qed.
+
+(* L: a complete input list with a clean verdict and no own complaint; the dealer's private
+   message and vector are its first ones, arrive in phase 0, the share is readable; the dealer
+   never repeats an answer and sends no complaint after the complaints timeout *)
+Definition dealer_on_time (L : list item) : Prop :=
+  (forall L1 m L2, L = L1 ++ IP d m :: L2 ->
+     ph L1 = 0%nat /\ shF d (annot L1) = None /\ ~ share_malformed m) /\
+  (forall L1 vb L2, L = L1 ++ IB d (MVec vb) :: L2 -> ph L1 = 0%nat /\ vecF d (annot L1) = None) /\
+  (forall L1 b z L2, L = L1 ++ IB d (MAnswer (AVal b z)) :: L2 -> ansF cf d (annot L1) (Z.to_nat b) = None) /\
+  (forall L1 cb L2, L = L1 ++ IB d (MComplaint cb) :: L2 -> (ph L1 < 2)%nat).
+
+Theorem honest_dealer_never_flagged L :
+  Phi cf d (annot L) = false -> ownc cf d (annot L) = false -> dealer_on_time L ->
+  ~ In (EvFlag d) (irun_events cf d q_init L).
+Proof.
+  intros HP HO (U1 & U2 & U3 & U4) Hin.
+  destruct (irun_events_split cf d L q_init _ Hin) as (L1 & x & L2 & EL & Hx).
+  apply istep_flag_cause in Hx.
+  (* the state before and after the step is clean *)
+  assert (P1 : Phi cf d (annot L1) = false).
+  { destruct (Phi cf d (annot L1)) eqn:E; [|reflexivity]. rewrite EL in HP. rewrite (Phi_extends (x :: L2) L1 E) in HP. discriminate HP. }
+  assert (P2 : Phi cf d (annot (L1 ++ [x])) = false).
+  { destruct (Phi cf d (annot (L1 ++ [x]))) eqn:E; [|reflexivity]. rewrite EL in HP.
+    replace (L1 ++ x :: L2) with ((L1 ++ [x]) ++ L2) in HP by (rewrite <- app_assoc; reflexivity).
+    rewrite (Phi_extends L2 _ E) in HP. discriminate HP. }
+  assert (O2 : ownc cf d (annot (L1 ++ [x])) = false).
+  { destruct (ownc cf d (annot (L1 ++ [x]))) eqn:E; [|reflexivity]. rewrite EL in HO.
+    replace (L1 ++ x :: L2) with ((L1 ++ [x]) ++ L2) in HO by (rewrite <- app_assoc; reflexivity).
+    rewrite (ownc_extends L2 _ E) in HO. discriminate HO. }
+  pose proof (qual_refines_factset cf d Hp Hd Hpd L1) as [R1 R1'].
+  pose proof (qual_refines_factset cf d Hp Hd Hpd (L1 ++ [x])) as [R2 R2'].
+  set (q := irun cf d q_init L1) in *.
+  assert (Eq' : irun cf d q_init (L1 ++ [x]) = fst (istep cf d q x)).
+  { unfold irun. rewrite fold_left_app. reflexivity. }
+  rewrite Eq' in R2, R2'. set (q' := fst (istep cf d q x)) in *.
+  assert (D1 : q_disq q = false) by (destruct (q_disq q); [rewrite (R1' eq_refl) in P1; discriminate P1|reflexivity]).
+  assert (D2 : q_disq q' = false) by (destruct (q_disq q'); [rewrite (R2' eq_refl) in P2; discriminate P2|reflexivity]).
+  destruct (R1 D1) as [S1 _]. destruct (R2 D2) as [S2 _].
+  assert (W2 : own_recv cf q' = false) by (rewrite (own_recv_abs _ _ S2); exact O2).
+  pose proof (sa_st _ _ _ _ S1) as Hst. pose proof (sa_ct _ _ _ _ S1) as Hct. rewrite nph_annot in Hst, Hct.
+  destruct x as [o m|o m| |j]; cbn [flag_cause] in Hx.
+  - destruct m as [|sb|vb|cb|ab|tg]; try contradiction.
+    + destruct Hx as [-> Hx]. destruct (U2 L1 vb L2 EL) as [Hph Hv].
+      rewrite Hst, Hph, (sa_vr _ _ _ _ S1), Hv, D2, W2 in Hx. cbn in Hx. intuition discriminate.
+    + destruct Hx as [-> Hx]. pose proof (U4 L1 cb L2 EL) as Hph.
+      rewrite Hct in Hx. apply Nat.leb_le in Hx. lia.
+    + destruct Hx as [-> Hx]. destruct ab as [|b z]; [contradiction|]. cbn in Hx.
+      rewrite (sa_compl _ _ _ _ S1 (Z.to_nat b)), (U3 L1 b z L2 EL) in Hx.
+      destruct (complained cf d (annot L1) (Z.to_nat b)); cbn in Hx; [discriminate Hx|contradiction].
+  - destruct Hx as [-> Hx]. destruct (U1 L1 m L2 EL) as (Hph & Hs & Hm).
+    rewrite Hst, Hph, (sa_xr _ _ _ _ S1), Hs, D2, W2 in Hx. cbn in Hx. intuition discriminate.
+  - rewrite D2, W2 in Hx. intuition discriminate.
+  - contradiction.
+Qed.
+
+(* C08 honest_dealer_never_disqualified + honest_never_flagged for the dealer: no callback ever
+   names an honest dealer *)
+Theorem honest_dealer_never_blamed L a :
+  ph L = 2%nat -> honest_dealer_log a (annot L) ->
+  tooMany cf d (annot L) = false -> unansweredF cf d (annot L) = false -> dealer_on_time L ->
+  ~ In (EvDisq d) (irun_events cf d q_init L) /\ ~ In (EvFlag d) (irun_events cf d q_init L).
+Proof.
+  intros Hph HL HT HU HD.
+  pose proof (honest_dealer_clean a (annot L) HL HT HU) as HPE.
+  assert (HP : Phi cf d (annot L) = false) by (unfold PhiEnd in HPE; apply orb_false_iff in HPE as [HP _]; exact HP).
+  split.
+  - apply no_disq_event. pose proof (qual_refines_factset cf d Hp Hd Hpd L) as [_ R2].
+    destruct (q_disq (irun cf d q_init L)); [rewrite (R2 eq_refl) in HP; discriminate HP|reflexivity].
+  - apply honest_dealer_never_flagged; auto. apply (hd_ownc a (annot L) HL).
 Qed.
 
 End Fair.
